@@ -244,7 +244,8 @@ func runC18(c *Ctx) {
 			for _, pa := range firstPath(gp, call.Block()) {
 				env := core.NewEnv(c.P, pa)
 				a := env.Term(call.Common().Args[len(call.Common().Args)-1])
-				okArg = a.Op == "index" && a.Args[0].String() == "@publicip.ipCheckers" && a.Args[1].Op == "binop" && a.Args[1].Args[0].Op == "loopphi"
+				// range form (rangeindex+1) or index-loop form (the induction variable itself), over the list or a snapshot of it
+				okArg = a.Op == "index" && strings.Contains(a.Args[0].String(), "@publicip.ipCheckers") && a.Args[1].Has(func(z *core.Term) bool { return z.Op == "loopphi" })
 			}
 			iff, _ := call.Block().Instrs[len(call.Block().Instrs)-1].(*ssa.If)
 			okEdges := false
@@ -264,10 +265,13 @@ func runC18(c *Ctx) {
 		R.Fail("R18.4", "publicip.handleRequest#anchor", 0, "", "anchor publicip.handleRequest no longer resolves")
 	} else {
 		fn := core.FuncName(hr)
-		rps, _ := core.ReturnPaths(c.P, hr, 5000)
+		rps := expandedReturnPaths(c.P, hr, 0) // the interpretation of the answer may have been moved into a helper that handleRequest tail-calls
 		n4xx, nbad := 0, 0
 		for _, rp := range rps {
-			if rp.Ret.Block().Comment == "recover" || rp.Results[1].IsConst("nil") {
+			if rp.Results[1].IsConst("nil") {
+				continue
+			}
+			if len(rp.Atoms) == 0 {
 				continue
 			}
 			last := rp.Atoms[len(rp.Atoms)-1].Norm()
@@ -284,7 +288,7 @@ func runC18(c *Ctx) {
 		}
 		// no other outcome of a completely received answer that may be a client error is retried
 		for _, rp := range rps {
-			if rp.Ret.Block().Comment == "recover" || rp.Results[1].IsConst("nil") || strings.Contains(rp.Results[1].String(), "backoff.Permanent(") {
+			if rp.Results[1].IsConst("nil") || strings.Contains(rp.Results[1].String(), "backoff.Permanent(") {
 				continue
 			}
 			received, outside := 0, false
@@ -299,7 +303,7 @@ func runC18(c *Ctx) {
 				}
 			}
 			if received >= 2 && !outside {
-				R.FailPath("R18.4", fn+"#client-error-retried", rp.Ret.Pos(), fn, "an answer that was received completely and may carry a 4xx status is reported with a retryable error ("+rp.Results[1].String()+"): client errors must be final for the provider", rp.Path.String())
+				R.FailPath("R18.4", fn+"#client-error-retried", rp.Ret.Pos(), fn, "an answer that was received completely and may carry a 4xx status is reported with a retryable error ("+rp.Results[1].String()+"): client errors must be final for the provider", rp.Path)
 			}
 		}
 		R.Floor("R18.4:4xx-paths", n4xx, 1)
